@@ -25,6 +25,16 @@ def cases(rng, tier):
     for c in range(1, 8):
         for dl in (0, 1, 2):
             cs.append(Case(1, [c, rng.randint(0, 11)], [gen.rbytes(rng, dl)], "notif.codes"))
+    # every defined (code, subcode) point and the first undefined ones, with data shaped like the payloads those points
+    # carry (a length-prefixed string whose prefix is smaller than / equal to / larger than what follows, a message type,
+    # a length field, an attribute triple): the codec copies the data verbatim whatever the code says it means
+    shapes = [b"", b"\x00", b"\x03abc", b"\x03abcXY", b"\x00abc", b"\x05ab", b"\xff" + b"a" * 40, b"\x80" + b"b" * 200,
+              b"\x00\x13", b"\x40\x01\x01\x07", b"\x02", bytes(range(16))]
+    for c in range(0, 10):
+        for sc in range(0, 13):
+            for d in shapes:
+                cs.append(Case(1, [c, sc], [d], "notif.grid"))
+                cs.append(Case(2, [], [bytes([c, sc]) + d], "notifdec.grid"))
     for _ in range(n):
         cs.append(Case(1, [gen.r_u8(rng), gen.r_u8(rng)], [gen.rbytes(rng, gen.rlen(rng, 4075))], "notif.random"))
     for _ in range(n):
